@@ -382,3 +382,39 @@ Theorem C06_code_unwind_followed :
   unwind stk = (decref top ;;; stack_pop (rc, top, sub) ;;; unwind rest).
 Proof. exact code_unwind_followed. Qed.
 Print Assumptions C06_code_unwind_followed.
+
+(* ---- the same over the third layer of client calls (HHist3.step3).  failed3: the failure values
+   of its calls (and failed for the embedded calls of the first layer).  moved s o: the items whose
+   reference the client hands over with cbor_move BEFORE the call in the idioms
+   cbor_array_push(a, cbor_move(x)), cbor_map_add(m, {cbor_move(k), cbor_move(v)}),
+   cbor_build_tag(v, cbor_move(x)).  A failing call leaves every cell as it was and nothing
+   allocated - EXCEPT that the count of a moved item is one lower (two lower for cbor_map_add with
+   the same item as key and value): a failing call does not give the moved reference back.
+   This exception is real (C06_example_push_move). ---- *)
+From CB Require Import HHist2 HHist3 HHist3_proofs.
+Theorem C06_step3_atomic : forall refuse L s own ownd w o s' r w',
+  Inv own ownd [] w -> legal3 s own w o ->
+  step3 refuse L s o w = Ret (s', r) w' -> failed3 o r = true ->
+  (forall b, ~ In b (moved s o) -> heap w' b = heap w b) /\
+  (forall b, In b (moved s o) -> exists rc n, heap w b = Some (CItem rc n) /\ heap w' b = Some (CItem (rc - cnt b (moved s o)) n)) /\
+  (forall b, heap w' b <> None -> heap w b <> None) /\
+  next w <= next w' /\ table3_grows_null s s' /\
+  (moved s o = [] -> Inv own ownd [] w').
+Proof. exact HAtomic_proofs.C06_step3_atomic. Qed.
+Print Assumptions C06_step3_atomic.
+
+Example C06_example_push_move :
+  let ops := [O3Old (ONewDefArray 0); O3Old (OBuildInt false I8 7); O3Old (OIncref 1)]%nat in
+  match run_hist3 HRef_proofs.never 8 ops s3_0 [] world0 with
+  | Ret (s, _) w =>
+      match step3 HRef_proofs.never 8 s (O3PushMove 0 1) w with
+      | Ret (s', r) w' =>
+          r = Out (OutBool false) /\ failed3 (O3PushMove 0 1) r = true /\ moved s (O3PushMove 0 1) = [3] /\
+          heap w 3 = Some (CItem 2 (NInt false I8 7)) /\ heap w' 3 = Some (CItem 1 (NInt false I8 7)) /\
+          heap w' 1 = heap w 1 /\ heap w' 2 = heap w 2 /\ live_count w' = live_count w
+      | Fault _ => False
+      end
+  | Fault _ => False
+  end.
+Proof. exact ex06_push_move_not_restored. Qed.
+
